@@ -286,8 +286,8 @@ def items(tier, seed):
     if tier == "quick":
         lists = [l for l in lists if len(l) <= 2] + [l for l in lists if len(l) == 3][:16]
     else:
-        lists = [l for l in lists if len(l) <= 3][:170] + [l for l in lists if len(l) == 4][:30]
-    per = 2 if tier == "quick" else 8
+        lists = [l for l in lists if len(l) <= 3][:100] + [l for l in lists if len(l) == 4][:20]
+    per = 2 if tier == "quick" else 4
     for a in range(0, len(lists), per):
         out.append(("cfg", n, a, lists[a:a + per], tier, seed))
     return out
@@ -308,7 +308,7 @@ def run_item(item):
 
 def explore(fn, what, res, tier):
     E = symx.Engine(timeout_ms=20000, caps=dict(index=None, hash=None, format=4, str=4), max_decisions=4000)
-    paths = E.explore(fn, max_paths=3000 if tier == "quick" else 30000, deadline=time.time() + (150 if tier == "quick" else 1200))
+    paths = E.explore(fn, max_paths=3000 if tier == "quick" else 10000, deadline=time.time() + (150 if tier == "quick" else 300))
     res["explorations"] += 1
     res["states"] += len(paths)
     res["transitions"] += E.stats["forks"]
@@ -513,7 +513,7 @@ def coverage(agg, tier):
         "rule": "state = one explored path (kind assignment / solver-decided address comparisons) of a harness; obligation = one 'path condition implies ...' query over the symbolic lengths and base",
         "bounds": {"stream": "(4 | 5) instructions, lengths 1..3 bytes each (symbolic), base address symbolic below 2^32-256, kinds plain/control-flow/delayed branch (symbolic)",
                    "sweep": "every start index; all kind assignments without a delayed branch in a delay slot",
-                   "cfg": "blocks = lsweep.getblock at a start index (maximal runs); quick: every ordered list of 1..2 start indices and 16 seeded lists of 3 (4-instruction stream); thorough: every ordered list of 1..3 start indices and 30 seeded lists of 4 (5-instruction stream); all plain/control-flow kind assignments (delay slots: sweep harness only)",
+                   "cfg": "blocks = lsweep.getblock at a start index (maximal runs); quick: every ordered list of 1..2 start indices and 16 seeded lists of 3 (4-instruction stream); thorough: 100 seeded ordered lists of 1..3 start indices and 20 seeded lists of 4 (5-instruction stream); all plain/control-flow kind assignments (delay slots: sweep harness only)",
                    "outside": "real decoders (covered by the x86-64 replay of witnesses only), blocks that are not cut from one stream (overlays), func/xfunc nodes, streams longer than the bound"},
         "stubs": symx.STUBS + ["decoder stub (see assumptions)", "AddrCst.__str__ does not print the address"],
         "exhaustive": False,
